@@ -255,9 +255,9 @@ class Interp:
         return outcomes, live
 
 
-def build(repo, si, off, mode_name):
+def build(repo, si, off, mode_name, frac=None):
     """returns (i bitvector, list of (path condition, outcome)) for
-    index_of(position_at(i), mode)"""
+    index_of(position_at(i), mode) - or, with frac, for index_of(position_at(i) + frac * interval, mode)"""
     from nixio.dimensions import IndexMode
     modes = {m: getattr(IndexMode, m) for m in ("Less", "LessOrEqual", "GreaterOrEqual", "LEQ", "GEQ")}
     attrs = {"offset": off, "sampling_interval": si}
@@ -271,6 +271,8 @@ def build(repo, si, off, mode_name):
     if fall or len(outs) != 1 or outs[0][1][0] != "ret":
         raise Unsupported("position_at is not a single return")
     pos = _fp(outs[0][1][1])
+    if frac is not None:
+        pos = z3.fpAdd(RNE, pos, z3.FPVal(frac * si, F64))      # a position clearly between two samples
     io_args = [a.arg for a in io.args.args]
     env = {io_args[1]: pos, io_args[2]: modes[mode_name]}
     outs, fall = itp.run(io.body, env, z3.BoolVal(True))
@@ -279,18 +281,25 @@ def build(repo, si, off, mode_name):
     return i, ifp, outs
 
 
-def decide(repo, si, off, mode_name, N, timeout_ms=900000, lo=0):
+def decide(repo, si, off, mode_name, N, timeout_ms=900000, lo=0, frac=None):
     out = {"si": si, "off": off, "mode": mode_name, "N": N, "lo": lo, "queries": 0, "solver_time_s": 0.0}
     t0 = _time.time()
     try:
-        i, ifp, outs = build(repo, si, off, mode_name)
+        i, ifp, outs = build(repo, si, off, mode_name, frac)
     except Unsupported as e:
         out.update(status="inconclusive", reason="unsupported: %s" % e)
         return out
     one = z3.FPVal(1.0, F64)
     bad = []
     for pc, (kind, v) in outs:
-        if mode_name == "Less":
+        if frac is not None:
+            # between sample i and sample i + 1: the last sample at or before is i, the first at or after i + 1
+            if kind == "raise" or v is None:
+                ok = z3.BoolVal(False)
+            else:
+                want = z3.fpAdd(RNE, ifp, one) if mode_name == "GreaterOrEqual" else ifp
+                ok = z3.fpEQ(_fp(v), want)
+        elif mode_name == "Less":
             if kind == "raise":
                 ok = z3.And(i == 0, v == "IndexError") if isinstance(v, str) else z3.BoolVal(False)
                 ok = (i == 0) if v == "IndexError" else z3.BoolVal(False)
